@@ -141,7 +141,7 @@ def run(m, chk):
         "relative to the minimum); both components of the Newton iterate are clamped on both sides after every update; loops are counter-bounded; the duplicate filter is passed; curves are not modified. "
         "Completeness (every crossing is found) and accuracy are not decided."
     )
-    chk.decides = ["ALL-COMPONENTS (the duplicate filter compares both parameters of a pair)", "PRECOND(non-empty)", "ABS-RESIDUAL", "CLAMP", "TERM", "must-pass-through(filter_pairs)", "PURE", "DEP-MAY (both curves, weights included)"]
+    chk.decides = ["RESIDUAL-DEGREE (the residual compared with 1e-6 is a distance, not a squared distance)", "ALL-COMPONENTS (the duplicate filter compares both parameters of a pair)", "PRECOND(non-empty)", "ABS-RESIDUAL", "CLAMP", "TERM", "must-pass-through(filter_pairs)", "PURE", "DEP-MAY (both curves, weights included)"]
     chk.not_decided = ["every crossing is found", "accuracy of the parameters"]
     # 0. the result depends on every field of both curves (weights included: a rational curve is not its control polygon)
     CC = "advanced.Intersection.curve_and_curve"
@@ -178,7 +178,7 @@ def run(m, chk):
     # 2. absolute residual filter
     fi = r.prog.func(PMD)
     g = name_deps(fi)
-    dist_names = {k for k, v in g.items() if any(isinstance(n, ast.Call) and "norm" in seg(n.func) for a in ast.walk(fi.node) if isinstance(a, (ast.Assign, ast.AugAssign)) and k in {x.id for t in (a.targets if isinstance(a, ast.Assign) else [a.target]) for x in ast.walk(t) if isinstance(x, ast.Name)} for n in ast.walk(a.value))}
+    dist_names = {k for k, v in g.items() if any(isinstance(n, ast.Call) and any(w in seg(n.func) for w in ("norm", "inner", "dot", "sqrt", "hypot")) for a in ast.walk(fi.node) if isinstance(a, (ast.Assign, ast.AugAssign)) and k in {x.id for t in (a.targets if isinstance(a, ast.Assign) else [a.target]) for x in ast.walk(t) if isinstance(x, ast.Name)} for n in ast.walk(a.value))}
     for k in list(dist_names):
         dist_names |= {x for x, v in g.items() if k in v and not any(isinstance(n, ast.Compare) for a in ast.walk(fi.node) if isinstance(a, ast.Assign) and any(isinstance(t, ast.Name) and t.id == x for t in a.targets) for n in ast.walk(a.value))}
     absolute = []
@@ -276,3 +276,6 @@ def run(m, chk):
     r.pure("PURE", PMD, ["pairs", "curvea", "curveb"])
     r.pure("PURE", I + "filter_pairs", ["pairs"])
     all_components(r, chk, I + "filter_pairs")
+    from .homog import residual_degree
+
+    residual_degree(r, chk, PMD, 1e-6)
